@@ -36,30 +36,32 @@ theorem disp_changes_only_selected (r : Nat) (s : State) (hr : r < s.heap.length
       rw [hd]
       exact applyDisp_moved _ _ _ _ i row ((whereEq_mem _ _ _).2 hi) hfix hrow
 
-/-- **negative_never_moved**: when the target is drawn by the move itself, atoms with a negative label are never
-    displaced (the draw is taken from the non-negative labels only). -/
-theorem negative_never_moved (r : Nat) (s : State) (hr : r < s.heap.length)
-    (hpre : (s.obj r).toDisplace = none) (i : Nat) (x : Int)
+/-- **negative_never_moved**: atoms with a negative label are never displaced — whether the target is drawn by the move
+    itself (the draw is taken from the non-negative labels only) or PRE-SELECTED by the user (a pre-selected label that is
+    not eligible makes the move fail). No hypothesis on how the target was chosen. -/
+theorem negative_never_moved (r : Nat) (s : State) (hr : r < s.heap.length) (i : Nat) (x : Int)
     (hx : (s.obj r).labels[i]? = some x) (hneg : x < 0) :
     (dispCall r s).2.atoms.rows[i]? = s.atoms.rows[i]? := by
   have h := dispCall_spec r s hr
   cases hok : (dispCall r s).1 with
   | false => rw [(h.fail_atoms hok).1]
   | true =>
-    obtain ⟨l, d, hd, _, hsel⟩ := h.ok_atoms hok
-    rcases hsel with hp | ⟨_, hmem⟩
-    · rw [hpre] at hp; cases hp
-    · have hl := ((uniqueLabels_mem _ _).1 hmem).2
-      rw [hd]
-      apply applyDisp_untouched
-      intro hm
-      have := (whereEq_mem _ _ _).1 hm
-      rw [hx] at this
-      cases this; omega
+    obtain ⟨l, d, hd, hdis, _⟩ := h.ok_atoms hok
+    obtain ⟨l', hdis', hmem⟩ := dispCall_ok_mem r s hr hok
+    have hll : l' = l := by rw [hdis] at hdis'; exact (Option.some.inj hdis').symm
+    subst hll
+    have hl := ((uniqueLabels_mem _ _).1 hmem).2
+    rw [hd]
+    apply applyDisp_untouched
+    intro hm
+    have := (whereEq_mem _ _ _).1 hm
+    rw [hx] at this
+    cases this; omega
 
-/-- **disp_no_candidate_fails**: with no eligible particle the move reports failure and changes nothing -/
+/-- **disp_no_candidate_fails**: with no eligible particle the move reports failure and changes nothing, pre-selected
+    target or not -/
 theorem disp_no_candidate_fails (r : Nat) (s : State) (hr : r < s.heap.length)
-    (hpre : (s.obj r).toDisplace = none) (hnone : ∀ x ∈ (s.obj r).labels, x < 0) :
+    (hnone : ∀ x ∈ (s.obj r).labels, x < 0) :
     (dispCall r s).1 = false ∧ (dispCall r s).2.atoms = s.atoms := by
   have hu : uniqueLabels (s.obj r).labels = [] := by
     apply List.eq_nil_iff_forall_not_mem.mpr
@@ -68,8 +70,39 @@ theorem disp_no_candidate_fails (r : Nat) (s : State) (hr : r < s.heap.length)
     have := hnone x this.1
     omega
   have hf : (dispCall r s).1 = false := by
-    rw [dispCall_eq]; simp [hpre, hu]
+    cases hok : (dispCall r s).1 with
+    | false => rfl
+    | true =>
+      obtain ⟨l, _, hmem⟩ := dispCall_ok_mem r s hr hok
+      rw [hu] at hmem; cases hmem
   exact ⟨hf, ((dispCall_spec r s hr).fail_atoms hf).1⟩
+
+/-- **preselected_ineligible_fails**: a pre-selected label that no atom carries, or a negative one, is not a target: the
+    move reports failure, moves nothing and forgets the pre-selection -/
+theorem preselected_ineligible_fails (r : Nat) (s : State) (hr : r < s.heap.length) (l : Int)
+    (hpre : (s.obj r).toDisplace = some l) (hl : l ∉ uniqueLabels (s.obj r).labels) :
+    (dispCall r s).1 = false ∧ (dispCall r s).2.atoms = s.atoms ∧ ((dispCall r s).2.obj r).toDisplace = none := by
+  have hsp := dispCall_spec r s hr
+  have hf : (dispCall r s).1 = false := by
+    cases hok : (dispCall r s).1 with
+    | false => rfl
+    | true =>
+      obtain ⟨l', d, _, hdis, hsel⟩ := hsp.ok_atoms hok
+      obtain ⟨l'', hdis', hmem⟩ := dispCall_ok_mem r s hr hok
+      rcases hsel with hp | ⟨hnone, _⟩
+      · rw [hpre] at hp
+        have : l'' = l := by
+          rw [hdis] at hdis'; have := Option.some.inj hdis'; have := Option.some.inj hp; omega
+        subst this; exact absurd hmem hl
+      · rw [hpre] at hnone; cases hnone
+  exact ⟨hf, (hsp.fail_atoms hf).1, hsp.presel_cleared⟩
+
+/-- before the repair a pre-selected NEGATIVE label was displaced like any other (`np.where(labels == -1)`): the pinned
+    `__call__` on a two-atom system whose second atom is frozen (label −1) moves exactly that atom -/
+def dispCallPinned (r : Nat) (s : State) : Bool × State :=
+  match (s.obj r).toDisplace with
+  | some _ => dispCore r (s.obj r) s
+  | none => dispCall r s
 
 /-- a fixed atom is never displaced when constraints are applied (used by C12) -/
 theorem disp_fixed_stays (r : Nat) (s : State) (hr : r < s.heap.length)
@@ -165,5 +198,22 @@ def exState : State :=
 
 example : (dispCall 0 exState).1 = true ∧
     (dispCall 0 exState).2.atoms.rows.map (·.pos) = [(2,0,0), (2,0,0), (4,0,0)] := by decide
+
+/-- the same state with the frozen atom's label −1 (resp. a label nobody carries) pre-selected -/
+def exPreNeg : State := exState.setObj 0 { exState.obj 0 with toDisplace := some (-1) }
+def exPreMissing : State := exState.setObj 0 { exState.obj 0 with toDisplace := some 7 }
+
+/-- the move as repaired: fails and moves nothing … -/
+example : (dispCall 0 exPreNeg).1 = false ∧ (dispCall 0 exPreNeg).2.atoms = exPreNeg.atoms ∧
+    (dispCall 0 exPreMissing).1 = false ∧ (dispCall 0 exPreMissing).2.atoms = exPreMissing.atoms := by decide
+
+/-- … **pinned_preselected_negative_moves**: the pinned `__call__` displaced the atom labelled −1 and reported
+    success, and reported success for a label nobody carries (nothing moved: "no particle is eligible" yet no failure) -/
+theorem pinned_preselected_negative_moves :
+    (dispCallPinned 0 exPreNeg).1 = true ∧
+    (dispCallPinned 0 exPreNeg).2.atoms.rows.map (·.pos) = [(0,0,0), (4,0,0), (4,0,0)] ∧
+    (dispCallPinned 0 exPreMissing).1 = true ∧ (dispCallPinned 0 exPreMissing).2.atoms = exPreMissing.atoms := by decide
+
+example : (-1 : Int) ∉ uniqueLabels (exPreNeg.obj 0).labels ∧ (exPreNeg.obj 0).toDisplace = some (-1) := by decide
 
 end MM
